@@ -828,6 +828,7 @@ func plan(quick bool) (jobs []Job, bounds map[string]any) {
 	jobs = append(jobs, chunk("store", "", "sound", allStore, 5, Job{})...)
 	jobs = append(jobs, chunk("smt", "w3", "sound", smtUnits("w3"), 20, Job{Histories: 2})...)
 	jobs = append(jobs, chunk("smt", "w6", "sound", smtUnits("w6"), 15, Job{Histories: hist})...)
+	jobs = append(jobs, chunk("smt", "w17", "sound", smtUnits("w17"), 40, Job{Histories: 1})...)
 	bounds["sound"] = "store: 5 versions x 27 keys, every distinct proof (live, read-only) x 27 claim keys x 4 claim forms; smt w3 (all 32 trees, both histories), w6 (all 64 subsets of 6 keys + 4 never-present keys)"
 	if !quick {
 		jobs = append(jobs, chunk("smt", "w4", "sound", smtUnits("w4"), 15, Job{Histories: 2})...)
